@@ -213,6 +213,31 @@ def scripted_cases(long=True):
                    ["headers", [[21, 20], [22, 21]]], ["headers", [[6, 5], [7, 6], [8, 7]]], ["process"], ["check"], ["restartnode"],
                    ["version"], ["check"]]
             res.append({"cfg": {"parents": par, "start": start}, "ops": ops})
+    # the node is PAST its start block (height s), then a reorganisation with fork point f at / below / well below
+    # the start block (f in {s-1, s-2, s-3, 1}), also after a restart: the headers handler must only revert, every
+    # block of the new branch from f+1 on is requested, processed and announced (monitor code 222); finally the
+    # orphaned start block is forgotten by a restart and the new branch is extended (bare headers again)
+    for st in (3, 4, 6):
+        n = st + 3
+        for f in sorted(set(x for x in (st - 1, st - 2, st - 3, 1) if 0 <= x < st)):
+            for restart in (False, True):
+                flen = n - f + 2
+                forkids = list(range(100, 100 + flen + 2))
+                par = [[i, i - 1] for i in range(1, n + 1)] + [[forkids[0], f]] + \
+                      [[forkids[i], forkids[i - 1]] for i in range(1, len(forkids))]
+                pmap = {a: b for a, b in par}
+                ops = [["version"], ["check"], ["headers", [[i, i - 1] for i in range(1, n + 1)]]]
+                for i in range(st, n + 1):
+                    ops += [["block", i, 1], ["process"]]
+                ops += [["check"], ["headers", []], ["check"]]
+                if restart:
+                    ops += [["restartnode"], ["version"], ["check"]]
+                ops += [["headers", [[i, pmap[i]] for i in forkids[:flen]]], ["check"]]
+                for i in forkids[:flen]:
+                    ops += [["block", i, 1], ["process"]]
+                ops += [["check"], ["headers", []], ["check"], ["restartnode"], ["version"], ["check"],
+                        ["headers", [[i, pmap[i]] for i in forkids[flen:]]], ["process"], ["check"], ["headers", []], ["check"]]
+                res.append({"cfg": {"parents": par, "start": st}, "ops": ops})
     if long:
         res += long_cases()
     return res
